@@ -59,6 +59,23 @@ func directedProgram() *idlgen.Program {
 	return &idlgen.Program{Files: []*idlgen.File{f}}
 }
 
+// directedValueProgram: no container holds a struct, so `value_type_in_container,gen_deep_equal` compiles (BATCH-notes D14)
+// and must behave exactly like gen_deep_equal alone.
+func directedValueProgram() *idlgen.Program {
+	i32, str, bin, dbl := ty(idlgen.I32), ty(idlgen.String), ty(idlgen.Binary), ty(idlgen.Double)
+	f := &idlgen.File{Path: "v.thrift", GoNS: "dirv"}
+	f.Structs = []*idlgen.Struct{
+		{Kind: 's', Name: "VK", Fields: []*idlgen.Field{fld(1, idlgen.Default, i32, "x"), fld(2, idlgen.Optional, str, "s")}},
+		{Kind: 's', Name: "V0", Fields: []*idlgen.Field{
+			fld(1, idlgen.Default, listOf(i32), "l"), fld(2, idlgen.Default, mapOf(str, listOf(dbl)), "m"),
+			fld(3, idlgen.Default, named("VK"), "k"), fld(4, idlgen.Optional, named("VK"), "ok"),
+			fld(5, idlgen.Default, setOf(bin), "sb"), fld(6, idlgen.Default, mapOf(i32, mapOf(i32, i32)), "mm"),
+			fld(7, idlgen.Optional, bin, "ob"), fld(8, idlgen.Default, setOf(listOf(i32)), "sl"),
+		}},
+	}
+	return &idlgen.Program{Files: []*idlgen.File{f}}
+}
+
 const (
 	dK = iota
 	dD0
